@@ -138,12 +138,13 @@ type Exec struct {
 	recDefining   map[string]bool
 	qvarCounter   int
 	linking       bool
+	skipped       map[string]bool
 }
 
 func NewExec(w *World, c *Ctx) *Exec {
 	return &Exec{w: w, c: c, obls: map[string]*Obligation{}, usedContract: map[string]bool{}, inlined: map[string]bool{},
 		observers: map[string]bool{}, havocked: map[string]bool{}, closures: map[string]*closure{}, boundMethods: map[string]*boundMethod{},
-		heapPureCache: map[string]int{}, recDefining: map[string]bool{}}
+		heapPureCache: map[string]int{}, recDefining: map[string]bool{}, skipped: map[string]bool{}}
 }
 
 func (ex *Exec) note(format string, args ...any) {
@@ -212,13 +213,19 @@ func (ex *Exec) heapArr(p *Path, key, valSort string) string {
 	if ex.isMutableKey(key) && gen != "" {
 		name += "@" + gen
 	}
-	return ex.c.Const(name, "(Array Ref "+valSort+")")
+	arr := ex.c.Const(name, "(Array Ref "+valSort+")")
+	if strings.HasPrefix(valSort, "|Slice:") {
+		// type invariant of every slice stored in the (base) heap: non-negative length
+		k := strings.TrimSuffix(strings.TrimPrefix(valSort, "|Slice:"), "|")
+		ex.c.Axiom("heapinv:"+name, "(forall ((r Ref)) (! (>= (|slen:"+k+"| (select "+arr+" r)) 0) :pattern ((select "+arr+" r))))")
+	}
+	return arr
 }
 
 func (ex *Exec) heapRead(p *Path, key string, ft types.Type, ref string) Value {
 	fs := ex.c.SortOf(ft)
 	v := Value{"(select " + ex.heapArr(p, key, fs) + " " + ref + ")", ft}
-	if inv := ex.c.typeInvariant(v); inv != "true" {
+	if inv := ex.c.typeInvariant(v); inv != "true" && ex.quantFacts == nil {
 		ex.assumeFact(p, inv)
 	}
 	return v
